@@ -30,6 +30,11 @@ var (
 	// re-election of an expired RFC 9520 failure probe. The limit belongs to
 	// one request cohort and must never create shared failure-cache state.
 	ErrFailureProbeLimit = errors.New("failure probe retry limit exceeded")
+	// ErrResolutionShed identifies work the resolver refused to start because
+	// its in-flight limits (global pool or per-zone quota) were exhausted. It
+	// describes this instance's momentary load, not the authorities: like the
+	// other request-local causes it must never become shared RFC 9520 state.
+	ErrResolutionShed = errors.New("resolution shed under load")
 )
 
 // ResolutionAttemptLimitError records the tuple rejected by the RFC 9520
@@ -412,6 +417,7 @@ func IsRequestLocalResolutionError(err error) bool {
 	return errors.Is(err, ErrRecursionWorkLimit) ||
 		errors.Is(err, ErrResolutionAttemptLimit) ||
 		errors.Is(err, ErrFailureProbeLimit) ||
+		errors.Is(err, ErrResolutionShed) ||
 		errors.Is(err, ErrMaxRecursion) ||
 		errors.Is(err, context.Canceled) ||
 		errors.Is(err, context.DeadlineExceeded)
